@@ -125,7 +125,12 @@ def run_tlc(
     meta = workdir / f"meta_{cfg_name}"
     if meta.exists():
         shutil.rmtree(meta)
-    java = ["java", "-XX:+UseParallelGC", f"-Xmx{heap}", "-cp", CP]
+    # SANY unpacks the standard modules into java.io.tmpdir on every run: keep that inside the work directory
+    # (removed with it by fresh_dir) instead of piling up under /tmp
+    jtmp = workdir / f"jtmp_{cfg_name}"
+    shutil.rmtree(jtmp, ignore_errors=True)
+    jtmp.mkdir(parents=True, exist_ok=True)
+    java = ["java", "-XX:+UseParallelGC", f"-Xmx{heap}", f"-Djava.io.tmpdir={jtmp}", "-cp", CP]
     if stack:
         java.append(f"-Xss{stack}")     # deeply nested (non-tail) recursive operators
     if cpus:
@@ -165,6 +170,7 @@ def run_tlc(
         raise MachineryError(f"TLC timed out after {timeout}s in {workdir} ({module})") from e
     finally:
         shutil.rmtree(meta, ignore_errors=True)
+        shutil.rmtree(jtmp, ignore_errors=True)
     out = p.stdout
     res = TlcResult(ok=False, stdout=out, wall_s=time.time() - t0, workdir=workdir)
     for m in _STATS.finditer(out):
